@@ -20,3 +20,4 @@ if '-v' in sys.argv:
     for o in r.obligations:
         if o.verdict != 'unsat' and o.name not in seen:
             seen.add(o.name); print('---', o.name, o.verdict, o.meta.get('line') if hasattr(o,'meta') else ''); print((o.model or '')[:1200]); print(o.trace)
+print('  canaries:', collections.Counter(o.verdict for o in r.canaries), [o.trace[-2:] for o in r.canaries if o.verdict == 'unsat'][:3])
